@@ -5,7 +5,6 @@ package main
 // decides a verdict - the walker does.
 
 import (
-	"bytes"
 	"fmt"
 	"os"
 	"sort"
@@ -202,6 +201,13 @@ func (h *hist) sub(x *genTx, path string) int {
 
 // ---- the history --------------------------------------------------------------------------
 
+func min(a, b int) int {
+	if a < b {
+		return a
+	}
+	return b
+}
+
 type kindW struct {
 	name string
 	w    int
@@ -212,7 +218,7 @@ func (h *hist) pickKind() string {
 		{"rbf", 11}, {"fan", 3}, {"invalid", 8}, {"resubmit", 3}, {"mine-pool", 3}, {"mine-mixed", 6}, {"reorg", 3},
 		{"tick", 3}, {"save-load", 2}}
 	if h.prof.evict {
-		ks = append(ks, kindW{"big", 45})
+		ks = append(ks, kindW{"big", 70})
 	}
 	if h.poisonOn {
 		ks = append(ks, kindW{"poison", 8})
@@ -274,6 +280,11 @@ func (h *hist) runHistory() (violated bool) {
 	}
 	if len(h.v.ents) == 0 {
 		h.run.Inc("histories_ending_with_empty_pool")
+	}
+	if h.run.WantSample() && h.prof.idx%7 == 0 {
+		h.run.Sample(map[string]interface{}{"history": h.prof.idx, "profile": fmt.Sprintf("%+v", h.prof), "steps": h.steps,
+			"largest_pool_walked": h.maxPool, "final_height": h.ref.Tip.Height, "reorgs_in_reference": h.ref.Reorgs,
+			"txs_generated": len(h.genList), "last_journal_lines": append([]string{}, h.jtail[len(h.jtail)-min(4, len(h.jtail)):]...)})
 	}
 	for k, c := range common.Counter {
 		switch k {
@@ -1132,7 +1143,7 @@ func (h *hist) stepSaveLoad() {
 }
 
 func (h *hist) stepBig() {
-	for k, n := 0, 1+h.r.Intn(3); k < n && !h.stopped; k++ {
+	for k, n := 0, 2+h.r.Intn(3); k < n && !h.stopped; k++ {
 		var ins []OP
 		if h.r.Intn(4) == 0 {
 			// like SendGetMP: the dynamic fee floor is dropped, so the pool can fill up again
@@ -1151,7 +1162,7 @@ func (h *hist) stepBig() {
 			ins = h.take(&fc, 1)
 		}
 		c, _ := h.coin(ins[0])
-		pad := 30000 + h.r.Intn(65000)
+		pad := 50000 + h.r.Intn(45000)
 		fee := uint64(pad) * uint64(1+h.r.Intn(40)) / uint64(1+h.r.Intn(4))
 		if fee+1000 > c.Value {
 			continue
@@ -1177,5 +1188,3 @@ func (h *hist) stepBig() {
 		}
 	}
 }
-
-var _ = bytes.Equal
